@@ -74,6 +74,24 @@ def gen_actor(rng, aid, ntrees, others):
             ops.append({'op': 'set', 'tree': tn0, 'path': path,
                         'attr': 'meta', 'value': same})
 
+    if rng.chance(0.15):
+        # files with identical diffs (here and in other actors' trees, which
+        # draw from the same small pool), statistics generated, then one
+        # file's statistics edited in place
+        tn0 = names[0]
+        d = {'$bytes': domgen.COMMON_DIFFS[rng.below(2)].hex()}
+
+        for path in ([0, 0], [0, 1], [1, 0]):
+            ops.append({'op': 'set', 'tree': tn0, 'path': path,
+                        'attr': 'diff', 'value': d})
+
+        ops.append({'op': 'generate_stats', 'tree': tn0, 'path': []})
+        ops.append({'op': 'meta_nested', 'tree': tn0, 'path': [0, 0],
+                    'prefer': 'stats', 'key': 'insertions',
+                    'value': 12345})
+        ops.append({'op': 'generate_stats', 'tree': tn0,
+                    'path': rng.choice([[0, 1], [1, 0], [0]])})
+
     n = rng.randint(6, 24)
     everyone = names + others
 
@@ -93,6 +111,12 @@ def gen_actor(rng, aid, ntrees, others):
             ops.append({'op': 'meta_set', 'tree': tn, 'path': path,
                         'key': rng.choice(['k', 'note', 'x y', 'path']),
                         'value': gen.gen_json_value(rng, 1)})
+        elif k < 8 and rng.chance(0.3):
+            path = rng.choice([[], [0], [0, 0], [1]])
+            ops.append({'op': 'meta_set', 'tree': tn, 'path': path,
+                        'key': 'by-line',
+                        'value': [{'$intkeys': {'10': 'x', '2': 'y'}},
+                                  {'$intkeys': {'7': [1, 2]}}]})
         elif k < 8:
             path = rng.choice([[], [0], [0, 0], [0, 1], [1], [1, 0]])
             ops.append({'op': 'meta_nested', 'tree': tn, 'path': path,
